@@ -18,7 +18,7 @@ RULE = ("Sub 'selectors': Hypothesis draws a ragged mixed-type table (cells and 
         "None, values of other types, nested sequences), a selector with its documented argument forms and complement; "
         "oracle: the input rows filtered, in input order, with the documented predicate (ordered selectors under the "
         "independent ordering, a missing cell read as `missing`). Sub 'partition': select / biselect / search+searchcomplement "
-        "/ facet / rowlenselect: selection and complement are an order-preserving partition of the input. Sub 'slices': "
+        "(whole row, one field, several fields) / facet (single and compound key) / rowlenselect: selection and complement are an order-preserving partition of the input. Sub 'slices': "
         "rowslice / head / tail / skip over all argument triples incl. None, 0 and beyond the end vs itertools.islice. "
         "Non-trivial = both the selection and its complement are non-empty (slices: table has >=2 rows and the slice is a "
         "proper non-empty subset). Distinct by digest.")
@@ -193,7 +193,7 @@ def check_sel(case, ctx):
 
 
 # ---- partition laws -------------------------------------------------------------------------------------------
-PARTS = ["biselect", "select-complement", "search", "search-field", "facet", "rowlenselect", "selectusingcontext"]
+PARTS = ["biselect", "select-complement", "search", "search-field", "search-fields", "facet", "facet-compound", "rowlenselect", "selectusingcontext"]
 PATTERNS = ["a", "^a", "x$", "[0-9]", "", "None", "a|b", "^$"]
 
 
@@ -204,9 +204,13 @@ def part_case(draw, tier):
     nf = draw(st.sampled_from([2, 1, 3]))
     hdr = ["a", "b", "c"][:nf]
     kind = draw(st.sampled_from(PARTS))
-    ragged = kind not in ("search-field", "facet") and draw(st.booleans())
+    if kind in ("search-fields", "facet-compound"):
+        nf = draw(st.sampled_from([2, 3]))
+        hdr = ["a", "b", "c"][:nf]
+    ragged = kind not in ("search-field", "search-fields", "facet", "facet-compound") and draw(st.booleans())
     tbl = draw(gen.table(hdr, [cell] * nf, max_rows=7 if tier == "quick" else 14, ragged=ragged))
     return {"kind": kind, "table": tbl, "field": draw(st.sampled_from(hdr)), "pattern": draw(st.sampled_from(PATTERNS)),
+            "fields": draw(st.permutations(hdr))[:2],
             "n": draw(st.integers(0, nf + 1)), "flags": draw(st.sampled_from([0, re.I]))}
 
 
@@ -241,13 +245,18 @@ def check_part(case, ctx):
             a, b = [tuple(r) for r in t1], [tuple(r) for r in t2]
             exp_a = [r for r in rows if R.cell(r, fi) is not None]
             exp_b = [r for r in rows if R.cell(r, fi) is None]
-        elif kind in ("search", "search-field"):
+        elif kind in ("search", "search-field", "search-fields"):
             prog = re.compile(case["pattern"], case["flags"])
             args = (case["pattern"],) if kind == "search" else (field, case["pattern"])
+            if kind == "search-fields":
+                args = (tuple(case["fields"]), case["pattern"])
+                fis = [tbl[0].index(f) for f in case["fields"]]
             a = [tuple(r) for r in etl.search(T, *args, flags=case["flags"])]
             b = [tuple(r) for r in etl.searchcomplement(T, *args, flags=case["flags"])]
             if kind == "search":
                 test = lambda r: any(prog.search(str(v)) for v in r)  # noqa
+            elif kind == "search-fields":
+                test = lambda r: any(prog.search(str(r[i])) for i in fis)  # noqa
             else:
                 test = lambda r: bool(prog.search(str(r[fi])))  # noqa
             exp_a = [r for r in rows if test(r)]
@@ -267,17 +276,23 @@ def check_part(case, ctx):
                 hash(tuple(R.cell(r, fi) for r in rows))
             except TypeError:
                 return None
-            f = etl.facet(T, field)
+            if kind == "facet-compound":
+                fis = [tbl[0].index(x) for x in case["fields"]]
+                kof = lambda r: tuple(r[i] for i in fis)  # noqa
+                f = etl.facet(T, tuple(case["fields"]))
+            else:
+                kof = lambda r: r[fi]  # noqa
+                f = etl.facet(T, field)
             keys = []
             for r in rows:
-                if r[fi] not in keys:
-                    keys.append(r[fi])
+                if kof(r) not in keys:
+                    keys.append(kof(r))
             if set(f.keys()) != set(keys) or len(f) != len(keys):
                 return Fail("facet/keys", "facet keys %r, distinct values %r" % (list(f.keys()), keys))
             total = []
             for k in keys:
                 part = [tuple(r) for r in f[k]]
-                exp = [r for r in rows if r[fi] == k]
+                exp = [r for r in rows if kof(r) == k]
                 if part != [hdr] + exp:
                     return Fail("facet/rows", "facet[%r] gave %r expected %r" % (k, part, exp))
                 total.extend(part[1:])
